@@ -10,10 +10,12 @@ import (
 
 	"github.com/polynetwork/poly/common"
 	"github.com/polynetwork/poly/common/config"
+	cstates "github.com/polynetwork/poly/core/states"
 	"github.com/polynetwork/poly/core/types"
 	"github.com/polynetwork/poly/native"
 	scom "github.com/polynetwork/poly/native/service/cross_chain_manager/common"
 	"github.com/polynetwork/poly/native/service/governance/node_manager"
+	"github.com/polynetwork/poly/native/service/utils"
 	"github.com/polynetwork/poly/native/storage"
 	"github.com/polynetwork/poly/zzsym"
 )
@@ -58,6 +60,23 @@ func ZZ_C25_VoteStep() {
 		}
 	}
 	zzPutPeerPool(db, 1, st)
+	// PeerPoolItem.Address is the wallet that registered the peer; validators vote with their node keys.
+	// own wallet each / one non-validator wallet (the stranger voter below) for all peers / rotated
+	if pat := zzsym.Choose("owners", 3); pat != 0 {
+		m := &node_manager.PeerPoolMap{PeerPoolMap: make(map[string]*node_manager.PeerPoolItem)}
+		for i := range st {
+			owner := zzValidatorAddr(6)
+			if pat == 2 {
+				owner = zzValidatorAddr((i + 1) % N)
+			}
+			pk := zzValidatorKeyHex[i]
+			m.PeerPoolMap[pk] = &node_manager.PeerPoolItem{Index: uint32(i + 1), PeerPubkey: pk, Address: owner, Status: st[i]}
+		}
+		sink := common.NewZeroCopySink(nil)
+		m.Serialization(sink)
+		db.Put(utils.ConcatKey(utils.NodeManagerContractAddress, []byte(node_manager.PEER_POOL), utils.GetUint32Bytes(1)), cstates.GenRawStorageItem(sink.Bytes()))
+		zzsym.Cover("foreign-owner-wallets")
+	}
 	if zzsym.Bool("strangerVoteRecorded") {
 		a := zzValidatorAddr(7)
 		pre.VoteInfo[a.ToBase58()] = true
@@ -272,6 +291,7 @@ func ZZ_C25_VoteHandler() {
 	db := zzNewCacheDB()
 	zzConsensusPool(db, 4)
 	src := zzsym.U64("src")
+	relay := zzsym.U32("relayHeight") // relay-chain height of the block carrying the votes: any (main net has no exemption)
 	height := zzsym.U32("height")
 	height2 := zzsym.U32("height2") // height of the second subject (used at the end)
 	zzsym.Assume(height2 != height)
@@ -304,7 +324,7 @@ func ZZ_C25_VoteHandler() {
 			zzsym.Assume(signer != who)
 		}
 		before := zzWriteSet(db)
-		p, err := h.MakeDepositProposal(zzVoteService(db, zzVoteInput(src, height, extra, who), 100, signer))
+		p, err := h.MakeDepositProposal(zzVoteService(db, zzVoteInput(src, height, extra, who), relay, signer))
 		if forged {
 			zzsym.Assert(err != nil && p == nil && zzSameWriteSet(before, zzWriteSet(db)), "a vote must be witnessed by the voting validator itself")
 			zzsym.Cover("forged-witness")
